@@ -46,26 +46,29 @@ class MAGen:
     """A random MultiAgentProblem built through the real API.  Everything derives from rng."""
 
     def __init__(self, rng, label="g"):
-        from unified_planning.shortcuts import (UserType, Object, Fluent, BoolType, InstantaneousAction, Variable)
+        from unified_planning.environment import Environment
+        from unified_planning.model import Fluent, Object, InstantaneousAction, Variable
         from unified_planning.model.multi_agent import MultiAgentProblem, Agent
         import unified_planning as up
         self.rng = rng
         self.up = up
         self.label = label
-        M = MultiAgentProblem("m_" + label)
+        env = Environment()           # a fresh (non-global) environment per problem
+        self.env = env
+        tm = env.type_manager
+        M = MultiAgentProblem("m_" + label, env)
         self.problem = M
-        env = M.environment
         self.em = env.expression_manager
-        self.T = UserType("T")
+        self.T = tm.UserType("T")
         nobj = rng.choice([1, 2, 2])
-        self.objs = [Object("o%d" % (i + 1), self.T) for i in range(nobj)]
+        self.objs = [Object("o%d" % (i + 1), self.T, env) for i in range(nobj)]
         M.add_objects(self.objs)
         a1, a2 = Agent("a1", M), Agent("a2", M)
         self.agents = [a1, a2]
-        B = BoolType()
+        B = tm.BoolType()
 
         def fl(name, arity):
-            return Fluent(name, B, **({"t": self.T} if arity else {}))
+            return Fluent(name, B, OrderedDict([("t", self.T)] if arity else []), env)
 
         # candidate fluents: (owner, visibility, fluent); a1 and a2 may share the SAME Fluent object `x`
         shared_x = fl("x", 0)
@@ -128,7 +131,6 @@ class MAGen:
 
     # -- expressions visible to agent `ag` (None = problem level)
     def atoms(self, ag, shared_only=False):
-        from unified_planning.shortcuts import Dot
         out = []
         for f in self.owned["env"]:
             out.append(("plain", None, f))
@@ -151,7 +153,6 @@ class MAGen:
         return out
 
     def fexp(self, how, owner, f, params, scope=()):
-        from unified_planning.shortcuts import Dot
         args = []
         for _ in range(f.arity):
             c = [self.em.ObjectExp(o) for o in self.objs]
@@ -159,7 +160,7 @@ class MAGen:
             c += [self.em.VariableExp(v) for v in scope] * 3
             args.append(self.rng.choice(c))
         e = self.em.FluentExp(f, tuple(args))
-        return Dot(owner, e) if how == "dot" else e
+        return self.em.Dot(owner, e) if how == "dot" else e
 
     def atom(self, ag, params, shared_only=False, scope=()):
         how, owner, f = self.rng.choice(self.atoms(ag, shared_only))
@@ -189,7 +190,7 @@ class MAGen:
         if shared_only and not self.atoms(None, True):
             return None
         nparams = rng.choice([0, 0, 1])
-        a = InstantaneousAction(name, OrderedDict(("p%d" % i, self.T) for i in range(nparams)))
+        a = InstantaneousAction(name, OrderedDict(("p%d" % i, self.T) for i in range(nparams)), self.env)
         params = list(a.parameters)
         for _ in range(rng.randint(0, 2)):
             a.add_precondition(self.gen_bool(2, ag, params, shared_only))
@@ -203,7 +204,7 @@ class MAGen:
             forall = ()
             if f.arity and rng.random() < 0.3:
                 self.nvars += 1
-                v = self.Variable("v%d" % self.nvars, self.T)
+                v = self.Variable("v%d" % self.nvars, self.T, self.env)
                 scope, forall = (v,), (v,)
             target = self.fexp(how, owner, f, params, scope)
             if forall and not any(x.is_variable_exp() for x in (target.arg(0).args if target.is_dot() else target.args)):
@@ -331,7 +332,7 @@ class Flat:
         key = (owner, f.name)
         if key not in self.flat:
             self.flat[key] = Fluent("%s__%s" % (owner, f.name), f.type,
-                                    OrderedDict((p.name, p.type) for p in f.signature))
+                                    OrderedDict((p.name, p.type) for p in f.signature), self.env)
         return self.flat[key]
 
     def add_compiled(self, M2):
@@ -391,7 +392,7 @@ class Flat:
         """flat copy of an InstantaneousAction of agent `ag` (preconditions kept as they are: no dedup)"""
         from unified_planning.shortcuts import InstantaneousAction
         from unified_planning.model import Effect
-        fa = InstantaneousAction(name, OrderedDict((p.name, p.type) for p in a.parameters))
+        fa = InstantaneousAction(name, OrderedDict((p.name, p.type) for p in a.parameters), self.env)
         fa._set_preconditions([self.expr(c, M2, ag) for c in a.preconditions])
         for e in a.effects:
             fa._effects.append(Effect(self.expr(e.fluent, M2, ag), self.expr(e.value, M2, ag),
@@ -401,7 +402,7 @@ class Flat:
     def problem(self, objects_of):
         """a single-agent Problem declaring every flat fluent (no actions, no goals): what SerProblem renders"""
         from unified_planning.shortcuts import Problem
-        P = Problem("flat")
+        P = Problem("flat", self.env)
         P.add_objects(objects_of)
         for f in self.flat.values():
             P.add_fluent(f, default_initial_value=(False if f.type.is_bool_type() else f.type.lower_bound))
@@ -556,24 +557,37 @@ class Comp:
                                           glist([ser_value(v, n) for v in self.dom(f, fake)])))
         return glist(rows)
 
+    def render_defs(self):
+        """per-(problem, compiler) definitions shared by its cases: P<i> problem, D<i> domains, K<i> original ground
+        fluents, F<i> fake goal fluents, DG<i> domains without the fake fluents"""
+        n = self.ser.names
+        keys = glist([gpair(gn(n.fl(f)), glist([ser_value(a, n) for a in args])) for (f, args) in self.orig_gf])
+        i = self.idx
+        return ("Definition P%d : problem := %s.\nDefinition D%d : list (N * list value * list value) := %s.\n"
+                "Definition DG%d : list (N * list value * list value) := %s.\n"
+                "Definition K%d : list (N * list value) := %s.\nDefinition F%d : list N := %s.\n" % (
+                    i, self.ser.render(), i, self.render_doms(), i, self.render_doms(with_fakes=False), i, keys,
+                    i, glist([gn(n.fl(f)) for f in self.fake_fluents])))
+
     def render_case(self, case):
         n = self.ser.names
         s = self.ser
-        keys = glist([gpair(gn(n.fl(f)), glist([ser_value(a, n) for a in args])) for (f, args) in self.orig_gf])
+        i = self.idx
         argss = glist([glist([ser_value(o, n) for o in t]) for t in case["argss"]])
         pre_dnf = glist([glist([ser_expr(x, n) for x in d]) for d in case.get("pre_dnf", [])])
         cdnf = glist([gpair(ser_expr(c, n), glist([ser_expr(d, n) for d in ds])) for c, ds in case.get("cdnf", [])])
-        return ("{| c_kind := %s; c_orig := %s; c_comp := %s; c_argss := %s; c_doms := %s; c_keys := %s; "
-                "c_fakes := %s; c_pre_dnf := %s; c_cdnf := %s |}" % (
-                    gn(self.kind), s.action(case["flat_orig"]), glist([s.action(c) for c in case["flat_comp"]]),
-                    argss, self.render_doms(), keys, glist([gn(n.fl(f)) for f in self.fake_fluents]), pre_dnf, cdnf))
+        return ("(P%d, {| c_kind := %s; c_orig := %s; c_comp := %s; c_argss := %s; c_doms := D%d; c_keys := K%d; "
+                "c_fakes := F%d; c_pre_dnf := %s; c_cdnf := %s |})" % (
+                    i, gn(self.kind), s.action(case["flat_orig"]), glist([s.action(c) for c in case["flat_comp"]]),
+                    argss, i, i, i, pre_dnf, cdnf))
 
     def render_gcase(self):
         n = self.ser.names
         s = self.ser
-        return ("{| g_doms := %s; g_goals := %s; g_cgoals := %s; g_fakes := %s; g_achievers := %s |}" % (
-            self.render_doms(with_fakes=False), glist([ser_expr(g, n) for g in self.g_orig]),
-            glist([ser_expr(g, n) for g in self.g_comp]), glist([gn(n.fl(f)) for f in self.fake_fluents]),
+        i = self.idx
+        return ("(P%d, {| g_doms := DG%d; g_goals := %s; g_cgoals := %s; g_fakes := F%d; g_achievers := %s |})" % (
+            i, i, glist([ser_expr(g, n) for g in self.g_orig]),
+            glist([ser_expr(g, n) for g in self.g_comp]), i,
             glist([gpair(gn(n.fl(f)), s.action(fa)) for (f, fa, _, _) in self.g_ach])))
 
     def nstates(self, with_fakes=True):
@@ -594,7 +608,7 @@ def oracle_case(comp, case):
     from unified_planning.model import UPState
     from unified_planning.engines.sequential_simulator import UPSequentialSimulator
     em = comp.M.environment.expression_manager
-    P = Problem("oracle")
+    P = Problem("oracle", comp.M.environment)
     P.add_objects(comp.M.all_objects)
     for f in comp.flat.flat.values():
         P.add_fluent(f, default_initial_value=(False if f.type.is_bool_type() else f.type.lower_bound))
@@ -659,14 +673,56 @@ BIT_TAGS = {1: "no-variant-applicable", 2: "variant-successor-differs", 4: "seve
             64: "fake-goal-not-reset", 128: "variant-applicable-original-not"}
 
 
+def coq_eval(ctx, live):
+    """One coqc run per shard (at most two shards, run side by side): every action case gives
+    code + 256 * (number of applicable (state, ground action) pairs), every goal case gives gcode."""
+    import re
+    from concurrent.futures import ThreadPoolExecutor
+    half = (sum(len(c.cases) for c in live) + 1) // 2
+    shards, cur, k = [[], []], 0, 0
+    for c in live:
+        shards[cur].append(c)
+        k += len(c.cases)
+        if cur == 0 and k >= half:
+            cur = 1
+    shards = [sh for sh in shards if sh]
+
+    def one(arg):
+        j, sh = arg
+        body = "".join(c.render_defs() for c in sh)
+        body += "Definition cs :=\n [ %s ].\n" % "\n ; ".join(c.render_case(case) for c in sh for case in c.cases)
+        body += "Eval vm_compute in (List.map (fun pc => (code (fst pc) (snd pc) + 256 * napplicable (fst pc) (snd pc))%N) cs).\n"
+        body += "Definition gs :=\n [ %s ].\n" % "\n ; ".join(c.render_gcase() for c in sh)
+        body += "Eval vm_compute in (List.map (fun pc => gcode (fst pc) (snd pc)) gs).\n"
+        out = ctx.coq_run(body, IMPORTS, name="c37_shard_%d" % j, timeout=1500)
+        blocks = re.findall(r"=\s*(\[[^\]]*\])\s*:\s*list N", out)
+        if len(blocks) != 2:
+            from harness.core import CoqError
+            raise CoqError("expected two result lists, got: %s" % out[:600])
+        a = [int(x) for x in re.findall(r"(\d+)%N", blocks[0])]
+        g = [int(x) for x in re.findall(r"(\d+)%N", blocks[1])]
+        if len(a) != sum(len(c.cases) for c in sh) or len(g) != len(sh):
+            from harness.core import CoqError
+            raise CoqError("result length mismatch: %s" % out[:600])
+        return a, g
+
+    codes, gcodes = [], []
+    with ThreadPoolExecutor(max_workers=2) as ex:
+        for a, g in ex.map(one, list(enumerate(shards))):
+            codes += a
+            gcodes += g
+    return [x % 256 for x in codes], [x // 256 for x in codes], gcodes
+
+
 def run(ctx):
     ok_proofs = ctx.check_props(extra=["theories/Corr/Corr_C37.v"])
     nprob = 20 if ctx.quick else 150
     problems = corpus()
+    ncorpus = len(problems)
     for i in range(nprob):
         problems.append(("g%d" % i, MAGen(ctx.rng, "g%d" % i).problem))
     comps = []
-    stats = {"problems": len(problems), "corpus": len(corpus()), "compiles": 0, "skipped": {}, "cases": 0, "goal_cases": 0,
+    stats = {"problems": len(problems), "corpus": ncorpus, "compiles": 0, "skipped": {}, "cases": 0, "goal_cases": 0,
              "variants_per_action": {}, "conditional_effects": 0, "forall_effects": 0, "dot_atoms": 0,
              "disjunctive_goals": 0, "fake_fluents": 0, "ground_fluents": {}, "lenient_fresh_fluent_refs": 0,
              "shared_action_objects": 0, "compile_raised": {}}
@@ -701,16 +757,14 @@ def run(ctx):
                 stats["skipped"][c.skipped] = stats["skipped"].get(c.skipped, 0) + 1
     live = [c for c in comps if c.skipped is None]
     stats["compiles"] = len(live)
-    pre = "\n".join("Definition P%d : problem := %s." % (c.idx, c.ser.render()) for c in live) + "\n"
-    cases, owners, gcases, gowners = [], [], [], []
     total_pairs = 0
+    owners, gowners = [], []
     for c in live:
         ng = len(c.ser.gfluents) - len(c.fake_gf)
         stats["ground_fluents"][str(ng)] = stats["ground_fluents"].get(str(ng), 0) + 1
         stats["fake_fluents"] += len(c.fake_fluents)
         stats["lenient_fresh_fluent_refs"] += c.flat.lenient_hits
         for case in c.cases:
-            cases.append("(P%d, %s)" % (c.idx, c.render_case(case)))
             owners.append((c, case))
             k = str(len(case["comp"]))
             stats["variants_per_action"][k] = stats["variants_per_action"].get(k, 0) + 1
@@ -719,19 +773,11 @@ def run(ctx):
                 stats["forall_effects"] += sum(1 for e in case["orig"].effects if e.is_forall())
                 stats["dot_atoms"] += str(case["orig"]).count(".")
             total_pairs += c.nstates() * len(case["argss"])
-        gcases.append("(P%d, %s)" % (c.idx, c.render_gcase()))
         gowners.append(c)
         if c.kind == 1:
             stats["disjunctive_goals"] += len(c.fake_fluents)
-    stats["cases"], stats["goal_cases"] = len(cases), len(gcases)
-    shard = max(1, (len(cases) + 1) // 2)
-    codes = ctx.coq_codes(cases, "fun pc => code (fst pc) (snd pc)", imports=IMPORTS, preamble=pre, shard=shard,
-                          label="actions", timeout=1500)
-    napp = ctx.coq_codes(cases, "fun pc => napplicable (fst pc) (snd pc)", imports=IMPORTS, preamble=pre, shard=shard,
-                         label="napp", timeout=1500)
-    gshard = max(1, (len(gcases) + 1) // 2)
-    gcodes = ctx.coq_codes(gcases, "fun pc => gcode (fst pc) (snd pc)", imports=IMPORTS, preamble=pre, shard=gshard,
-                           label="goals", timeout=1500)
+    stats["cases"], stats["goal_cases"] = len(owners), len(gowners)
+    codes, napp, gcodes = coq_eval(ctx, live)
     nontrivial = set()
     disagreements = 0
     for (c, case), code, na in zip(owners, codes, napp):
@@ -793,7 +839,7 @@ def run(ctx):
         "distribution": stats,
         "programs": len(live),
         "disagreements_checked": disagreements,
-        "cases": len(cases) + len(gcases),
+        "cases": len(owners) + len(gowners),
     }, "proof", assumptions=[
         "MA problems are sampled (2 agents, <= 6 Boolean ground fluents; corpus problems may add one bounded integer fluent); states and ground actions are enumerated exhaustively per problem",
         "an agent's view is flattened by harness/props/c37.py:Flat (own fluent f = Dot(self, f))",
